@@ -135,13 +135,25 @@ def gen_program(rng, fam):
         return (g.src(False) + g.src(False) + g.tr(2) + [rng.choice(OPS), "asorig"] + g.tr(2) + g.src() + g.tr(2) + [rng.choice(OPS)])
     if fam == 7:      # a single transformed / mirrored source
         return g.src() + g.tr(3) + (["mirror", "1", str(rng.randrange(2)), "0"] if rng.random() < 0.5 else [])
+    if fam == 9:      # the SAME instance (or two bit-identically transformed instances) of one original on both sides of
+        # subtractions that are then unioned / composed: front-side and back-side runs of one original with equal transforms
+        a, k = g.src(), g.src() + g.tr(1)
+        join = rng.choice([["add"], ["add"], ["compose", "2"]])
+        v = rng.randrange(3)
+        if v == 0:        # (A-K)+(K-A), A and K reused as they are
+            return a + k + ["over", "over", "sub", "rot", "rot", "swap", "sub"] + join
+        if v == 1:        # two copies of A moved by the same transform applied separately
+            t = g.tr(1)
+            return a + ["dup"] + t + ["swap"] + t + k + ["rot", "over", "sub", "rot", "rot", "swap", "sub"] + join
+        # (A^H)+(K-A): front-side piece from an intersection, back-side piece from a subtraction
+        return a + k + ["over", "over", "swap", "sub", "rot"] + g.src() + g.tr(1) + ["int"] + join
     # fam 8: originals in descending-ID order as P, Q (run order differs from meshID order), subtract
     return g.src() + ["dup"] + g.tr(2) + g.src() + g.tr(2) + ["swap", rng.choice(OPS), "swap", "sub"]
 
 
 # program structure (for shrinking): number of argument tokens of each operation
 ARITY = {"cube": 3, "tet": 0, "sphere": 2, "cyl": 3, "mesh": 3, "asorig": 0, "add": 0, "sub": 0, "int": 0, "tr": 12, "mirror": 3,
-         "refine": 1, "splitplane": 5, "split": 1, "compose": 1, "decompose": 1, "dup": 0, "swap": 0}
+         "refine": 1, "splitplane": 5, "split": 1, "compose": 1, "decompose": 1, "dup": 0, "swap": 0, "over": 0, "rot": 0}
 UNARY = ("tr", "mirror", "refine", "asorig", "mesh", "decompose")
 
 
@@ -541,6 +553,11 @@ def run(cx):
         # regression for the repaired defect (fixed: 12674512): Compose zero-filled tangents -> Refine recomputed coplanarIDs
         "compose-refine": "cube 1 1 1 cube 1 1 1 tr 1 0 0 0 1 0 0 0 1 12/4 0 0 add refine 2",
         # witness of the known finding: colinear collapse keeps a property vertex interpolated for the removed position
+        # the same instance of one original front-side and back-side in one result (symmetric difference, union and compose)
+        "symdiff-add": "cube 2 2 2 mesh 1 1 11 cube 2 2 2 tr 1 0 0 0 1 0 0 0 1 1/7 3/11 5/13 over over sub rot rot swap sub add",
+        "symdiff-compose": "cube 2 2 2 cube 2 2 2 tr 1 0 0 0 1 0 0 0 1 1/7 3/11 5/13 over over sub rot rot swap sub compose 2",
+        "symdiff-same-transform-twice": "cube 2 2 2 mesh 2 2 12 dup tr 0 1 0 -1 0 0 0 0 1 2/7 1/11 1/13 swap tr 0 1 0 -1 0 0 0 0 1 2/7 1/11 1/13 "
+                                        "sphere 1 6 tr 1 0 0 0 1 0 0 0 1 3/17 2/19 25/23 rot over sub rot rot swap sub add",
         "tet-edge-in-cube-face": "tet cube 1 1 3 mesh 1 0 860 tr 1 0 0 0 1 0 0 0 1 -4/8 0 4/4 add",
         # second witness of the same CollapseEdge carry-over defect, other branch: two edges of two instances cross exactly; the
         # short-edge collapse of the coincident crossing vertices re-points face 101's corner (property vertex shared with face 102
@@ -550,7 +567,7 @@ def run(cx):
     for name, p in corpus.items():
         progs["c-" + name] = p.split()
     for i in range(ncase):
-        progs[str(i)] = gen_program(rng, i % 9)
+        progs[str(i)] = gen_program(rng, i % 10)
     search_budget = [0]
 
     def execute(progs):
@@ -699,7 +716,7 @@ def run(cx):
         # shortest prefix that still leaves a result on the stack and shows the same kind
         depth, cuts = 0, []
         for n, o in enumerate(ops):
-            depth += {"cube": 1, "tet": 1, "sphere": 1, "cyl": 1, "dup": 1, "add": -1, "sub": -1, "int": -1, "split": -1}.get(o[0], 0)
+            depth += {"cube": 1, "tet": 1, "sphere": 1, "cyl": 1, "dup": 1, "over": 1, "add": -1, "sub": -1, "int": -1, "split": -1}.get(o[0], 0)
             if o[0] == "compose":
                 depth -= int(o[1]) - 1
             if depth >= 1 and n + 1 < len(ops):
@@ -784,7 +801,8 @@ def run(cx):
             if same:
                 corr_ok += 1
             elif not rejected:
-                which = [n for n, a, b in (("faceID", m_face, o["faceID"]), ("runIndex", m_ri, o["runIndex"]), ("runOriginalID", m_ro, o["runOriginalID"]),
+                which = (["numRun %d vs model %d" % (len(o["runOriginalID"]), len(m_ro))] if len(m_ro) != len(o["runOriginalID"]) else []) + \
+                        [n for n, a, b in (("faceID", m_face, o["faceID"]), ("runIndex", m_ri, o["runIndex"]), ("runOriginalID", m_ro, o["runOriginalID"]),
                                            ("runFlags", m_rf, o["runFlags"]), ("runTransform", m_rt, o["runTransform"])) if a != b]
                 note_broke("corr:C07/get_mesh_runs#case %s" % k, "runs", "extracted run builder and GetMeshGL64 differ in %s for: %s (impl runOriginalID=%s model=%s)"
                            % (which, " ".join(prog), o["runOriginalID"], m_ro))
@@ -896,7 +914,7 @@ def run(cx):
     cx.log('oracle + comparison done')
     # ---- search phase: a correspondence broke and the oracle found nothing: aim extra programs at the broken function
     if corr_bad and not [v for v in cx.violations if v[0] not in known_keys]:
-        fam = {"bool": [1, 8, 2], "runs": [8, 2, 5], "compose": [5], "incr": [1, 5], "init": [6], "transform": [7, 1], "rel": [1, 2]}
+        fam = {"bool": [1, 8, 2], "runs": [9, 8, 2, 5], "compose": [5], "incr": [1, 5], "init": [6], "transform": [7, 1], "rel": [1, 2]}
         fams = sorted(set(x for fn in broken_fns for x in fam.get(fn, [1])))
         extra = {"s%d" % i: gen_program(rng, fams[i % len(fams)]) for i in range(cx.pick(400, 4000))}
         search_budget[0] = len(extra)
@@ -910,7 +928,7 @@ def run(cx):
 
     cx.cov.update({
         "evaluations": dist["programs"] + search_budget[0], "distinct_nontrivial": nontriv,
-        "rule": "seeded stack programs (9 families: two sources, repeated instances of one original, depth-2 with subtracts, split, refine, compose/decompose, "
+        "rule": "seeded stack programs (10 families: same original front- and back-side with equal transforms (symmetric differences), two sources, repeated instances of one original, depth-2 with subtracts, split, refine, compose/decompose, "
                 "AsOriginal, single transformed/mirrored, descending-ID operands) over cube/tet/sphere/cylinder originals, MeshGL64 imports with 0-3 affine "
                 "property channels, user/per-triangle/absent face IDs and reserved original IDs; non-trivial = distinct exported mesh with >= 2 non-empty runs",
         "distribution": dist, "oracle_totals": tot, "oracle_cross_checks": oracle_stats, "correspondence_mismatches": len(corr_bad), "traces_validated_against_impl": corr_ok,
